@@ -183,10 +183,23 @@ func runCheck(repo, prop, tier string) int {
 	defer r.Close()
 	results := r.SolveAll(items)
 	// undecided obligations get reseeded retries with a longer budget
-	for i, x := range results {
-		if x.Status == "undecided" {
+	{
+		var retry []int
+		for i, x := range results {
+			if x.Status == "undecided" && !x.Obl.ExpectSat {
+				retry = append(retry, i)
+			}
+		}
+		if len(retry) > 0 {
 			r2 := NewRunner(timeout*3, false)
-			results[i] = r2.Solve(items[i].vc, items[i].o, 90000+i)
+			var sub []vcObl
+			for _, i := range retry {
+				sub = append(sub, items[i])
+			}
+			rs := r2.SolveAll(sub)
+			for k, i := range retry {
+				results[i] = rs[k]
+			}
 			r2.Close()
 		}
 	}
